@@ -261,8 +261,14 @@ func C05(m *sipsp.PSIPMsg, buf []byte, start, ret int) string {
 			// it may legitimately be an earlier header only if that one is stored too - it is not
 			return fmt.Sprintf("GetHdr(%d) %s is not the first stored header of that type Hdrs[%d] %s", t, fstr("Name", g.Name), first, fstr("Name", m.HL.Hdrs[first].Name))
 		}
-		if li := lineOf(g.Name); li < 0 || lines[li].start != int(g.Name.Offs) {
+		li := lineOf(g.Name)
+		if li < 0 || lines[li].start != int(g.Name.Offs) {
 			return fmt.Sprintf("GetHdr(%d) %s does not sit at the start of a header line", t, fstr("Name", g.Name))
+		}
+		// the shortcut's value lies inside that same line, after the name (also when the header
+		// itself was not stored in the caller's array)
+		if g.Val.Len > 0 && !inside(g.Val, fend(g.Name), lines[li].eol) {
+			return fmt.Sprintf("GetHdr(%d) %s not inside its own line [%d,%d) after %s", t, fstr("Val", g.Val), lines[li].start, lines[li].eol, fstr("Name", g.Name))
 		}
 	}
 	// header specific values
